@@ -1,6 +1,6 @@
 (** C14 over the Go source: SuiteConfig.Validate, OCRAInput.Validate and challengeLength as translated from
     suite_rfc6287.go and otp.go decide exactly the admission rules of the property. *)
-From OtpV Require Import Prelude Sha GoSem Tables Decoder Derive Otp Ocra Rfc6287 Errors OcraProofs Src SrcLift SrcEqOtp SrcEqOcra SrcTop C14.
+From OtpV Require Import Prelude Sha GoSem Tables Decoder Derive Otp Ocra Rfc6287 Errors OcraProofs Src SrcLift SrcTop SrcEqOcraV C14.
 Open Scope N_scope.
 
 Theorem C14src_suite : forall cfg,
@@ -35,19 +35,3 @@ Theorem C14src_interface : forall r,
 Proof. intros r. split; reflexivity. Qed.
 Print Assumptions C14src_interface.
 
-Theorem C14src_entry : forall fuel junk jm secret cfg i, runs fuel junk secret -> small_input i ->
-  (0 <= sc_challenge cfg <= 6)%Z /\ (sc_p cfg = true -> 1 <= sc_pwhash cfg <= 3)%Z ->
-  ((exists code, Src.GenerateOCRA fuel jm secret cfg i = Val (code, None))
-   <-> (exists key, Src.DecodeSecret fuel secret = Val (key, None)) /\ usable cfg /\ admissible cfg i).
-Proof.
-  intros fuel junk jm secret cfg i (Hf & Hfs & Hs & Hj) Hi Hr.
-  rewrite src_GenerateOCRA_eq by (assumption || lia).
-  pose proof (C14_entry secret cfg i Hr) as [H1 H2].
-  split.
-  - intros [code Hc]. destruct (generate_ocra secret cfg i) as [c|e|] eqn:E; cbn [lift_oc] in Hc; try discriminate.
-    destruct (H1 (ex_intro _ c eq_refl)) as ([key Hk] & Hu & Ha).
-    split; [exists key; apply src_decode_ok; assumption|split; assumption].
-  - intros ([key Hk] & Hu & Ha). apply src_decode_ok in Hk; [|assumption|assumption].
-    destruct (H2 (conj (ex_intro _ key Hk) (conj Hu Ha))) as [code Hc]. exists code. rewrite Hc. reflexivity.
-Qed.
-Print Assumptions C14src_entry.
